@@ -30,18 +30,18 @@ func init() {
 }
 
 type tblCase struct {
-	NKeys       int    `json:"nkeys"`
-	KeyShape    int    `json:"key_shape"` // 0: 4-byte big endian ints (works with the map loader), 1: variable ascii, 2: binary incl. marker bytes and an empty first key
-	ValShape    int    `json:"val_shape"` // 0 mixed incl nil/empty, 1 non-empty only, 2 large last entry
-	DataComp    int    `json:"data_comp"`
-	IndexComp   int    `json:"index_comp"`
-	Bloom       uint64 `json:"bloom_n"`
-	WriteBuf    int    `json:"write_buf"`
-	ReadBuf     int    `json:"read_buf"`
-	SkipList    bool   `json:"skiplist_writer,omitempty"`
-	Loader      int    `json:"loader"` // 0 slice, 1 skiplist, 2 map (4-byte keys only), 3 disk
-	ReadChunk   int    `json:"read_chunk"`
-	Seed        int64  `json:"seed"`
+	NKeys     int    `json:"nkeys"`
+	KeyShape  int    `json:"key_shape"` // 0: 4-byte big endian ints (works with the map loader), 1: variable ascii, 2: binary incl. marker bytes and an empty first key
+	ValShape  int    `json:"val_shape"` // 0 mixed incl nil/empty, 1 non-empty only, 2 large last entry
+	DataComp  int    `json:"data_comp"`
+	IndexComp int    `json:"index_comp"`
+	Bloom     uint64 `json:"bloom_n"`
+	WriteBuf  int    `json:"write_buf"`
+	ReadBuf   int    `json:"read_buf"`
+	SkipList  bool   `json:"skiplist_writer,omitempty"`
+	Loader    int    `json:"loader"` // 0 slice, 1 skiplist, 2 map (4-byte keys only), 3 disk
+	ReadChunk int    `json:"read_chunk"`
+	Seed      int64  `json:"seed"`
 }
 
 type kv struct {
